@@ -24,22 +24,22 @@ Lemma pending_of_conn s k cn : conns s k = Some cn -> pending_of s k = pending (
 Proof. intro H. unfold pending_of, pend_c0. rewrite H. destruct (c_cc cn); reflexivity. Qed.
 
 (* effect of the handler on the pending challenge and on the nonce counter *)
-Lemma auth_result_pending chk keep s c a m s1 c1 ar : auth_result hmac mf pb chk keep s c a m s1 c1 ar ->
+Lemma auth_result_pending chk v s c a m s1 c1 ar : auth_result hmac mf pb chk v s c a m s1 c1 ar ->
   (pending c1 = pending c /\ next_nonce s1 = next_nonce s) \/
   (pending c1 = Some (next_nonce s) /\ next_nonce s1 = next_nonce s + 1) \/
   (pending c1 = None /\ next_nonce s1 = next_nonce s).
 Proof.
   intro H; destruct H; cbn;
-    try (left; split; [reflexivity|]; try reflexivity; try (unfold first_state; destruct keep; reflexivity);
-         destruct (rf_frame mf pb s a) as (_ & _ & _ & _ & Hn); exact Hn).
+    try (left; split; [reflexivity|]; try reflexivity; try (unfold first_state; destruct (v_first_keeps v); reflexivity);
+         destruct (rf_frame mf pb (v_ban_monotone v) s a) as (_ & _ & _ & _ & Hn); exact Hn).
   - right. left. split; reflexivity.
   - right. right. split; reflexivity.
-  - right. right. split; [reflexivity|]. destruct (rf_frame mf pb s a) as (_ & _ & _ & _ & Hn); exact Hn.
+  - right. right. split; [reflexivity|]. destruct (rf_frame mf pb (v_ban_monotone v) s a) as (_ & _ & _ & _ & Hn); exact Hn.
 Qed.
 
-Lemma verif_target_consumed chk keep s k m cn ch s1 c1 ar :
+Lemma verif_target_consumed chk v s k m cn ch s1 c1 ar :
   conns s k = Some cn -> verif_target chk s k m = Some ch ->
-  auth_result hmac mf pb chk keep s (pend_c0 cn) (c_addr cn) m s1 c1 ar ->
+  auth_result hmac mf pb chk v s (pend_c0 cn) (c_addr cn) m s1 c1 ar ->
   pending (pend_c0 cn) = Some ch /\ pending c1 = None /\ next_nonce s1 = next_nonce s.
 Proof.
   intros Hc Hv Har. unfold verif_target in Hv. rewrite Hc in Hv.
@@ -58,20 +58,20 @@ Proof.
   - exfalso. congruence.
   - exfalso. congruence.
   - split; reflexivity.
-  - split; [reflexivity|]. destruct (rf_frame mf pb s (c_addr cn)) as (_ & _ & _ & _ & Hnn); exact Hnn.
+  - split; [reflexivity|]. destruct (rf_frame mf pb (v_ban_monotone v) s (c_addr cn)) as (_ & _ & _ & _ & Hnn); exact Hnn.
   - exfalso. congruence.
 Qed.
 
 (* pending challenges after a handshake: on the acting connection what the handler left, elsewhere unchanged or gone *)
 Lemma handle_pending chk v s k h cn s1 c1 ar :
-  conns s k = Some cn -> auth chk (v_first_keeps v) s (pend_c0 cn) (c_addr cn) h = (s1, c1, ar) ->
+  conns s k = Some cn -> auth chk v s (pend_c0 cn) (c_addr cn) h = (s1, c1, ar) ->
   let s' := fst (handle chk v s k (Some h)) in
   next_nonce s' = next_nonce s1 /\
   pending_of s' k = pending c1 /\
   (forall k', k' <> k -> pending_of s' k' = pending_of s k' \/ pending_of s' k' = None).
 Proof.
   intros Hc Ha s'.
-  pose proof (auth_cases hmac mf pb chk (v_first_keeps v) s (pend_c0 cn) (c_addr cn) h) as Har. rewrite Ha in Har.
+  pose proof (auth_cases hmac mf pb chk v s (pend_c0 cn) (c_addr cn) h) as Har. rewrite Ha in Har.
   destruct (auth_result_frame _ _ _ _ _ _ _ _ _ _ _ _ Har) as [Hcs _].
   destruct (handle_shape hmac mf pb chk v s k h cn Hc s1 c1 ar Ha) as [He|(He & _ & _ & _)]; unfold s'; rewrite He.
   - split; [reflexivity|]. split.
@@ -121,8 +121,8 @@ Lemma handle_step_pending chk v s k m :
 Proof.
   cbv zeta. destruct m as [h|]; [|split; [cbn; lia|intros k' n H; left; exact H]].
   destruct (conns s k) as [cn|] eqn:Hc; [|unfold Auth.handle; rewrite Hc; split; [cbn; lia|intros k' n H; left; exact H]].
-  destruct (auth chk (v_first_keeps v) s (pend_c0 cn) (c_addr cn) h) as [[s1 c1] ar] eqn:Ha.
-  pose proof (auth_cases hmac mf pb chk (v_first_keeps v) s (pend_c0 cn) (c_addr cn) h) as Har. rewrite Ha in Har.
+  destruct (auth chk v s (pend_c0 cn) (c_addr cn) h) as [[s1 c1] ar] eqn:Ha.
+  pose proof (auth_cases hmac mf pb chk v s (pend_c0 cn) (c_addr cn) h) as Har. rewrite Ha in Har.
   destruct (handle_pending chk v s k h cn s1 c1 ar Hc Ha) as (Hn & Hk & Ho). cbv zeta in *.
   pose proof (auth_result_pending _ _ _ _ _ _ _ _ _ Har) as Hp.
   split; [rewrite Hn; destruct Hp as [[_ E]|[[_ E]|[_ E]]]; lia|].
@@ -135,6 +135,13 @@ Proof.
   - destruct (Ho k' Hne) as [E|E]; rewrite E in H; [left; exact H|discriminate].
 Qed.
 
+Lemma ban_req_pending mono perm s a : next_nonce (ban_req mono perm s a) = next_nonce s /\
+  forall k, pending_of (ban_req mono perm s a) k = pending_of s k.
+Proof.
+  destruct (ban_req_frame mono perm s a) as (E1 & _ & _ & _ & E5 & _). split; [exact E5|].
+  intro k. unfold pending_of. rewrite E1. reflexivity.
+Qed.
+
 (* one event: as above; at most one connection ([knew]) receives a new challenge *)
 Lemma step_pending v s e :
   let s' := fst (step v s e) in
@@ -145,6 +152,8 @@ Proof.
   destruct e; cbn [Auth.step fst]; cbv zeta;
     try (split; [cbn; lia|exists 0; intros k' n H; left; exact H]).
   - (* EMsg *) destruct (handle_step_pending true v s k m) as [H1 H2]. split; [exact H1|exists k; exact H2].
+  - (* EBan *) destruct (ban_req_pending (v_ban_monotone v) false s a) as [E1 E2].
+    split; [rewrite E1; lia|exists 0; intros k' n H; left; rewrite E2 in H; exact H].
   - (* ERestart *) split; [destruct lapsed; cbn; lia|exists 0; intros k' n H; destruct lapsed; discriminate].
   - (* EExpire *) destruct (clients s x); (split; [cbn; lia|exists 0; intros k' n H; left; exact H]).
   - (* EDelAnon *) destruct (v_anon_delete v); (split; [cbn; lia|exists 0; intros k' n H; left; exact H]).
@@ -158,7 +167,9 @@ Proof.
     rewrite upd_other in H by assumption. fold (pending_of (close s k) k') in H.
     destruct (close_pending s k k') as [E|E]; rewrite E in H; [left; exact H|discriminate].
   - (* ESetRecord *) destruct (clients s x); (split; [cbn; lia|exists 0; intros k' n H; left; exact H]).
+  - (* EBanLapse *) destruct (v_ban_monotone v); (split; [cbn; lia|exists 0; intros k' n H; left; exact H]).
   - (* EBody *) destruct (handle_step_pending false v s k (Some m)) as [H1 H2]. split; [exact H1|exists k; exact H2].
+  - (* ETempLapse *) destruct (permb s a); (split; [cbn; lia|exists 0; intros k' n H; left; exact H]).
 Qed.
 
 Lemma step_pend_inv v s e : pend_inv s -> pend_inv (fst (step v s e)).
@@ -209,8 +220,8 @@ Proof.
   intros [H1 H2] Hv. cbv zeta.
   pose proof (verif_target_pending _ _ _ _ _ Hv) as Hpk.
   destruct (conns s k) as [cn|] eqn:Hc; [|unfold pending_of in Hpk; rewrite Hc in Hpk; discriminate].
-  destruct (auth chk (v_first_keeps v) s (pend_c0 cn) (c_addr cn) m) as [[s1 c1] ar] eqn:Ha.
-  pose proof (auth_cases hmac mf pb chk (v_first_keeps v) s (pend_c0 cn) (c_addr cn) m) as Har. rewrite Ha in Har.
+  destruct (auth chk v s (pend_c0 cn) (c_addr cn) m) as [[s1 c1] ar] eqn:Ha.
+  pose proof (auth_cases hmac mf pb chk v s (pend_c0 cn) (c_addr cn) m) as Har. rewrite Ha in Har.
   destruct (verif_target_consumed _ _ _ _ _ _ _ _ _ _ Hc Hv Har) as (_ & Hnone & Hnn).
   destruct (handle_pending chk v s k m cn s1 c1 ar Hc Ha) as (Hn & Hk & Ho). cbv zeta in *.
   split; [|rewrite Hn; exact Hnn].
@@ -246,8 +257,8 @@ Theorem success_is_a_counted_verification chk v s k h : pend_inv s ->
 Proof.
   intros [H1 _] Ho.
   destruct (conns s k) as [cn|] eqn:Hc; [|unfold Auth.handle in Ho; rewrite Hc in Ho; discriminate].
-  destruct (auth chk (v_first_keeps v) s (pend_c0 cn) (c_addr cn) h) as [[s1 c1] ar] eqn:Ha.
-  pose proof (auth_cases hmac mf pb chk (v_first_keeps v) s (pend_c0 cn) (c_addr cn) h) as Har. rewrite Ha in Har.
+  destruct (auth chk v s (pend_c0 cn) (c_addr cn) h) as [[s1 c1] ar] eqn:Ha.
+  pose proof (auth_cases hmac mf pb chk v s (pend_c0 cn) (c_addr cn) h) as Har. rewrite Ha in Har.
   rewrite (handle_out_auth hmac mf pb chk v s k h cn Hc _ _ _ Ha) in Ho. injection Ho as ->.
   inversion Har as [| | | | | |cl sec ch Hg Hcl He Hst Hr Hp| |]; subst.
   exists ch. split.
@@ -264,7 +275,7 @@ Qed.
 (* the pending challenge of a connection is the LATEST challenge issued on that connection        *)
 (* ------------------------------------------------------------------------------------------ *)
 
-Lemma auth_result_issue chk keep s c a m s1 c1 ar : auth_result hmac mf pb chk keep s c a m s1 c1 ar ->
+Lemma auth_result_issue chk v s c a m s1 c1 ar : auth_result hmac mf pb chk v s c a m s1 c1 ar ->
   (ar = AChallenge (next_nonce s) /\ pending c1 = Some (next_nonce s)) \/
   ((forall n, ar <> AChallenge n) /\ (pending c1 = pending c \/ pending c1 = None)).
 Proof.
@@ -280,8 +291,8 @@ Proof.
   intro H. destruct m as [h|]; [|right; split; [right; intros n E; discriminate E|exact H]].
   destruct (conns s k) as [cn|] eqn:Hc.
   2:{ unfold Auth.handle in *. rewrite Hc in *. right. split; [right; intros n E; discriminate E|exact H]. }
-  destruct (auth chk (v_first_keeps v) s (pend_c0 cn) (c_addr cn) h) as [[s1 c1] ar] eqn:Ha.
-  pose proof (auth_cases hmac mf pb chk (v_first_keeps v) s (pend_c0 cn) (c_addr cn) h) as Har. rewrite Ha in Har.
+  destruct (auth chk v s (pend_c0 cn) (c_addr cn) h) as [[s1 c1] ar] eqn:Ha.
+  pose proof (auth_cases hmac mf pb chk v s (pend_c0 cn) (c_addr cn) h) as Har. rewrite Ha in Har.
   destruct (handle_pending chk v s k h cn s1 c1 ar Hc Ha) as (_ & Hk & Ho). cbv zeta in *.
   rewrite (handle_out_auth hmac mf pb chk v s k h cn Hc _ _ _ Ha).
   destruct (N.eq_dec k' k) as [->|Hne].
@@ -308,6 +319,7 @@ Proof.
       exfalso. exact (Hno n eq_refl). }
   destruct e; cbn [Auth.step fst snd] in *; unfold note; cbn [o_auth no_out];
     try (apply Hacc; exact H); try (apply Hmsg; exact H).
+  - (* EBan *) apply Hacc. destruct (ban_req_pending (v_ban_monotone v) false s a) as [_ E]. rewrite E in H. exact H.
   - (* ERestart *) destruct lapsed; discriminate H.
   - (* EExpire *) apply Hacc. destruct (clients s x); exact H.
   - (* EDelAnon *) apply Hacc. destruct (v_anon_delete v); exact H.
@@ -319,6 +331,8 @@ Proof.
     rewrite upd_other in H by assumption. fold (pending_of (close s k0) k) in H.
     destruct (close_pending s k0 k) as [E|E]; rewrite E in H; [exact H|discriminate].
   - (* ESetRecord *) apply Hacc. destruct (clients s x); exact H.
+  - (* EBanLapse *) apply Hacc. destruct (v_ban_monotone v); exact H.
+  - (* ETempLapse *) apply Hacc. destruct (permb s a); exact H.
 Qed.
 
 Lemma last_issued_inv v es : forall s k acc,
